@@ -15,6 +15,8 @@
 //	          in the same expression), time.Date / ParseInLocation / Time.In with a location other than time.UTC, time.Local,
 //	          Time.Local(), and zone-dependent renderings of a time.Time not forced by .UTC() in the same expression
 //	          (Format, AppendFormat, String, MarshalJSON/Text, Zone, Location, Date, Clock, Year ... ISOWeek)
+//	errtext   the text of an error value (fmt.Sprint*/Append* with an error argument, err.Error()) that is stored in a field /
+//	          literal, put into an event or passed to a Set*/Save* function (returned errors, panics, logs are not sites)
 //	procstate write to process-local state: a package-level variable or a field of a hand-written struct type of
 //	          the application (assignment, index assignment, append, delete, Store/Delete/..., big.Int mutators)
 //	          outside constructors (New*/Make*), init and Register* functions
@@ -348,6 +350,80 @@ func mutableLibType(t types.Type) bool {
 	return false
 }
 
+// ---- error text: the rendering of an error value (fmt verbs, err.Error()) that is STORED or EMITTED.  %v / %+v of a
+// wrapped error carries source paths of the build host; error texts of dependencies change between versions.
+var errorIface = types.Universe.Lookup("error").Type().Underlying().(*types.Interface)
+
+func isErrorValue(pi *pkgInfo, e ast.Expr) bool {
+	t := pi.info.TypeOf(e)
+	if t == nil {
+		return false
+	}
+	if b, ok := t.Underlying().(*types.Basic); ok && (b.Kind() == types.UntypedNil || b.Kind() == types.Invalid) {
+		return false
+	}
+	return types.Implements(t, errorIface)
+}
+
+// errorText: "fmt.Sprintf(err)" / "err.Error()" when the call renders an error value, else ""
+func errorText(pi *pkgInfo, c *ast.CallExpr) string {
+	se, ok := c.Fun.(*ast.SelectorExpr)
+	if !ok {
+		return ""
+	}
+	if pkgOf(pi.info, se.X) == "fmt" && (strings.HasPrefix(se.Sel.Name, "Sprint") || strings.HasPrefix(se.Sel.Name, "Append")) {
+		for _, a := range c.Args {
+			if isErrorValue(pi, a) {
+				return "fmt." + se.Sel.Name + "(error)"
+			}
+		}
+		return ""
+	}
+	if se.Sel.Name == "Error" && len(c.Args) == 0 && isErrorValue(pi, se.X) {
+		return "error.Error()"
+	}
+	return ""
+}
+
+// textSink: where the rendered text goes, looking at the enclosing nodes: a struct field / map or slice element
+// ("field"), a composite literal ("literal"), an event attribute ("event"), a store / keeper setter ("setter").
+// Returned errors, panics, log lines and error wrapping are not sinks (they never enter a block result's hashed part).
+func textSink(pi *pkgInfo, stack []ast.Node) string {
+	for i := len(stack) - 2; i >= 0; i-- {
+		switch p := stack[i].(type) {
+		case *ast.AssignStmt:
+			for _, l := range p.Lhs {
+				switch l.(type) {
+				case *ast.SelectorExpr, *ast.IndexExpr:
+					return "field " + src(l)
+				}
+			}
+			return ""
+		case *ast.KeyValueExpr:
+			return "literal " + src(p.Key)
+		case *ast.CallExpr:
+			name := ""
+			switch f := p.Fun.(type) {
+			case *ast.SelectorExpr:
+				name = f.Sel.Name
+			case *ast.Ident:
+				name = f.Name
+			}
+			switch {
+			case name == "NewAttribute" || name == "NewEvent" || name == "EmitEvent" || name == "EmitTypedEvent":
+				return "event"
+			case strings.HasPrefix(name, "Set") || strings.HasPrefix(name, "Save") || name == "Store":
+				return "setter " + name
+			case name == "panic" || strings.HasPrefix(name, "Wrap") || name == "Errorf" || name == "New" || name == "Info" || name == "Error" || name == "Debug" || name == "Println" || name == "Printf":
+				return ""
+			}
+		case *ast.ReturnStmt, *ast.ExprStmt, *ast.FuncLit, *ast.BlockStmt:
+			return ""
+		}
+	}
+	return ""
+}
+
 func isTimeType(t types.Type) bool {
 	if t == nil {
 		return false
@@ -396,7 +472,20 @@ func scan(pi *pkgInfo, relDir string) []site {
 		}
 		visit := func(fn string, root ast.Node) {
 			fnSrc := normSrc(root)
+			var stack []ast.Node
 			ast.Inspect(root, func(n ast.Node) bool {
+				if n == nil {
+					stack = stack[:len(stack)-1]
+					return true
+				}
+				stack = append(stack, n)
+				if c, ok := n.(*ast.CallExpr); ok {
+					if what := errorText(pi, c); what != "" {
+						if sink := textSink(pi, stack); sink != "" {
+							add(fn, "errtext", what+" -> "+sink)
+						}
+					}
+				}
 				switch x := n.(type) {
 				case *ast.AssignStmt:
 					if !wiringFunc(fn) && x.Tok != token.DEFINE {
@@ -517,8 +606,8 @@ func scan(pi *pkgInfo, relDir string) []site {
 						case "Getenv", "LookupEnv", "Environ", "Hostname", "Getpid", "Getwd", "Getppid":
 							add(fn, "osenv", "os."+x.Sel.Name)
 						}
-					case "runtime":
-						add(fn, "runtime", "runtime."+x.Sel.Name)
+					case "runtime", "runtime/debug":
+						add(fn, "runtime", p+"."+x.Sel.Name)
 					}
 				}
 				return true
@@ -724,9 +813,9 @@ func main() {
 	b.WriteString("(* GENERATED by /verif/harness/cmd/gen_nondet from the working tree -- do not edit.\n")
 	fmt.Fprintf(&b, "   %d packages, %d files scanned (x/, app/ and types/; excluded: client cli simulation legacy testutil teststaking, *_test.go, *.pb.gw.go). *)\n", len(scopes), nfiles)
 	b.WriteString("From Sekai Require Import Base.Prelude.\n\n")
-	b.WriteString("Inductive site_kind : Type := KTimeNow | KRand | KMapRange | KPbMap | KMapKeys | KGo | KOsEnv | KRuntime | KProcState | KLocalTime.\n")
+	b.WriteString("Inductive site_kind : Type := KTimeNow | KRand | KMapRange | KPbMap | KMapKeys | KGo | KOsEnv | KRuntime | KProcState | KLocalTime | KErrText.\n")
 	b.WriteString("Record site : Type := mkSite { s_file : string; s_func : string; s_kind : site_kind; s_expr : string; s_ord : nat }.\n\n")
-	kinds := map[string]string{"timenow": "KTimeNow", "rand": "KRand", "maprange": "KMapRange", "pbmap": "KPbMap", "mapkeys": "KMapKeys", "go": "KGo", "osenv": "KOsEnv", "runtime": "KRuntime", "procstate": "KProcState", "localtime": "KLocalTime"}
+	kinds := map[string]string{"timenow": "KTimeNow", "rand": "KRand", "maprange": "KMapRange", "pbmap": "KPbMap", "mapkeys": "KMapKeys", "go": "KGo", "osenv": "KOsEnv", "runtime": "KRuntime", "procstate": "KProcState", "localtime": "KLocalTime", "errtext": "KErrText"}
 	b.WriteString("Definition sites : list site := [\n")
 	for i, s := range sites {
 		sep := ";"
